@@ -24,7 +24,10 @@ ASSUMPTIONS = ['a corrupt primary file given to loads() is not generated (raisin
 WATCHDOG_S = 120
 
 FN_NAMES = ['ZZFUNC', 'NoSuchFn', '_xlfn.NEWFUNC', '_XLFN.FUTURE.FN', 'my_func', '_xlfn.zzz9']
-REFLIT = ['#REF!', '#REF!+1', 'SUM(#REF!)', 'SUM(1,#REF!)', '{q}#REF!', 'IF(TRUE,#REF!,1)']
+REFLIT = ['#REF!', '#REF!+1', 'SUM(#REF!)', 'SUM(1,#REF!)', '{q}#REF!', 'IF(TRUE,#REF!,1)',
+          # what Excel leaves behind when one operand of a reference operator is deleted (any error value is accepted there)
+          'SUM(A1:A3 #REF!)', 'SUM((A1:A2,#REF!))', 'SUM(A1:#REF!)', '#REF!:A3', 'SUM(#REF! A1:A3)', 'SUM((#REF!,A1))']
+ANYERR = {'#NULL!', '#DIV/0!', '#VALUE!', '#REF!', '#NAME?', '#NUM!', '#N/A'}
 # formulas with several different unresolved items, each intercepted on its own: (dict-path text, file-path text, value)
 PAIRS = [('IFERROR(NO_SUCH_A,10)+IFERROR(no.such.b,20)', 'IFERROR(NO_SUCH_A,10)+IFERROR(no.such.b,20)', 30.0),
          ('ISERROR(NO_SUCH_A)*1+ISERROR(NO_SUCH_B)*1', 'ISERROR(NO_SUCH_A)*1+ISERROR(NO_SUCH_B)*1', 2.0),
@@ -69,7 +72,9 @@ def fault_text(f, spec, at, full):
     raise ValueError(k)
 
 
-def allowed(kind):
+def allowed(kind, variant=0):
+    if kind == 'ref-literal' and variant % len(REFLIT) >= 6:
+        return ANYERR
     return {'#NAME?'} if kind == 'unknown-fn' else {'#REF!', '#NAME?'}
 
 
@@ -211,10 +216,10 @@ def check_spec(case):
                                   G.node_id(sp, key), fault_text(f, sp, key, path == 'dict'), got, want)))
             over.append((list(key), want))
             continue
-        ok = isinstance(got, sut.Err) and got.t in allowed(f['kind'])
+        ok = isinstance(got, sut.Err) and got.t in allowed(f['kind'], f['variant'])
         if not ok:
             fails.append(('kind|%s|%s|%s' % (path, f['kind'], 'missing' if got == 'MISSING' else X.cls(got)),
-                          '%s = %s evaluates to %r, expected one of %s' % (G.node_id(sp, key), fault_text(f, sp, key, path == 'dict'), got, sorted(allowed(f['kind'])))))
+                          '%s = %s evaluates to %r, expected one of %s' % (G.node_id(sp, key), fault_text(f, sp, key, path == 'dict'), got, sorted(allowed(f['kind'], f['variant'])))))
             got = sut.Err('#NAME?' if f['kind'] == 'unknown-fn' else '#REF!')
         over.append((list(key), ['E', got.t]))
     ev_spec = {'books': sp['books'], 'names': sp.get('names', []),
@@ -251,7 +256,7 @@ def _fault():
     return st.builds(lambda kind, variant, replace, target, loc: {'kind': kind, 'variant': variant, 'replace': replace, 'target': target, 'loc': loc},
                      st.sampled_from(['unknown-fn', 'unknown-fn', 'absent-sheet', 'absent-book', 'unreadable-book', 'undefined-name', 'ref-literal',
                                       'absent-spill', 'intercepted-pair']),
-                     st.integers(0, 11), st.booleans(), st.integers(0, 30), st.tuples(st.integers(0, 3), st.integers(0, 3), st.integers(0, 9)).map(list))
+                     st.integers(0, 23), st.booleans(), st.integers(0, 30), st.tuples(st.integers(0, 3), st.integers(0, 3), st.integers(0, 9)).map(list))
 
 
 def _specs(tier):
